@@ -282,8 +282,11 @@ def add_tag_noise(rng, cr):
     in the same way."""
     pt = cr["pretext"]
     pool = ["Hap1", "HAP1", "hap1", "Hap2", "HAP2", "X", "Y", "B1", "Singleton", "Primary", "Target", "Hap3"]
+    with_pieces = [sc_ for sc_ in pt if any(r[0] == "F" for r in sc_[1])]
+    if not with_pieces:
+        return  # (every input scaffold is shorter than a texel and absent from the map: nothing to tag)
     for _ in range(rng.randint(1, 3)):
-        sc = rng.choice(pt)
+        sc = rng.choice(with_pieces)
         frs = [r for r in sc[1] if r[0] == "F"]
         existing = {t for r in frs for t in r[5]}
         r = rng.choice(frs)
